@@ -117,5 +117,32 @@ CHECKS.update({
     },
 })
 
+_PIPE_NOTE = ("program space is generated by the J5Schema / J5Lang / J5Entity models plus the repository's own sources; stages are real library calls; "
+              "descriptor equivalence is normalised as stated in the evidence assumptions")
+CHECKS.update({
+    "C05": {
+        "text": "spec/Pipeline.tla orders the stages Compile, Print, Reparse, Reprint as actions with outcomes; for every program of the generated "
+                "space and every hand-written proto tree the real PrintFile text is parsed and linked with protocompile, the descriptor is "
+                "compared with the original on the listed attributes (incl. every option / extension value and leading comments) and printed "
+                "again; recorded stage outcomes are replayed through the stage machine by TLC (PipelineTrace) and the C05 tally cross-checked",
+        "design_ref": "DESIGN.md 5.9, 6/C05", "note": _PIPE_NOTE,
+        "technique": "TLA+ stage machine + TLC, replay of generated programs through print / protocompile re-parse / re-print, TLC trace validation",
+    },
+    "C15": {
+        "text": "for every program: image -> structure.APIFromImage -> j5schema.PackageSetFromSourceAPI (all refs must link) -> ToJ5Root of every "
+                "schema must be proto.Equal to the exported form; stage outcomes validated by TLC against the Pipeline stage machine",
+        "design_ref": "DESIGN.md 5.9, 6/C15", "note": _PIPE_NOTE,
+        "technique": "TLA+ stage machine + TLC, export / import / re-export replay with structural diff, TLC trace validation",
+    },
+    "C16": {
+        "text": "for every program (services with every verb, bodiless responses, topics, entities, self- and mutually-recursive and flattened "
+                "types, every field kind in request / response / path position): image, source API, client API, J5 JSON rendering and OpenAPI must "
+                "all succeed in an isolated worker with a time budget, and the client API must list exactly the declared methods with verb, path, "
+                "bound path parameters, the verb-dictated path/query/body split and all reachable schemas; outcomes validated by TLC (PipelineTrace)",
+        "design_ref": "DESIGN.md 5.9, 6/C16", "note": _PIPE_NOTE,
+        "technique": "TLA+ stage machine + TLC, replay through the real tool-chain with process isolation, contract comparison, TLC trace validation",
+    },
+})
+
 _NY = "check not built yet in this round; planned per DESIGN.md section 6 (TLA+ model + replay + trace validation)"
 PENDING = {("C%02d" % i): _NY for i in range(1, 21)}
